@@ -1,13 +1,16 @@
 package main
 
 import (
+	"os"
 	"verifharness/checks/c01"
 	"verifharness/checks/c02"
+	"verifharness/checks/c03b"
 	"verifharness/checks/c09"
 	"verifharness/checks/c10"
 	"verifharness/checks/c16"
 	"verifharness/checks/c17"
 	"verifharness/checks/c18"
+	"verifharness/rep"
 )
 
 func init() {
@@ -18,5 +21,10 @@ func init() {
 	registry["C16"] = entry{"exploration", c16.Run}
 	registry["C17"] = entry{"fault_enumeration", c17.Run}
 	registry["C18"] = entry{"exploration", c18.Run}
-	registry["C03"] = entry{"model_checking", c18.Run03A}
+	registry["C03"] = entry{"model_checking", func(r *rep.Run) {
+		c18.Run03A(r)
+		if _, _, worker := rep.Shard(); !worker && os.Getenv("VERIF_REPLAY") == "" {
+			c03b.RunB(r)
+		}
+	}}
 }
